@@ -4,6 +4,10 @@
 //
 // case = [0, gr_peers, duration, probe_fams, events]      restarting-speaker glue (C11)
 //   events: [0, rdinput] | [1, f, net, peer, pid, 0]
+// case = [1, events]                                      helper-side glue (C10)
+//   events: [0, fams, gr_opt, llgr_opt] up | [1, f, id, no_llgr, llgr_comm] announce | [2, f] eor
+//           | [3, reason] down | [4] failed connect | [5] restart timer | [6, f] llgr timer
+//           | [7] force_down | [8, b] admin_down
 use super::super::*;
 
 #[allow(dead_code)]
@@ -244,11 +248,272 @@ async fn run_rs_case(l: &[Val]) -> Val {
     Val::L(vec![Val::b(started), flags0, Val::L(obs)])
 }
 
+// ------------------------------------------------------------------ C10
+const PROBE_FAMS: [Family; 3] = [Family::IPV4, Family::IPV6, Family::IPV4_VPN];
+
+fn reason_of(code: i128) -> crate::fsm::SessionDownReason {
+    use crate::fsm::SessionDownReason as R;
+    use rustybgp_packet::Notification as N;
+    let m = |n: N| bgp::Message::Notification(n);
+    match code {
+        0 => R::IoError,
+        1 => R::RemoteNotification(m(N::CeaseAdministrativeReset)),
+        2 => R::RemoteNotification(m(N::CeaseHardReset)),
+        3 => R::LocalNotification(m(N::CeaseMaxPrefixReached)),
+        4 => R::LocalNotification(m(N::CeaseHardReset)),
+        5 => R::LocalNotification(m(N::from_notification(3, 1, Vec::new()))),
+        6 => R::HoldTimerExpired,
+        7 => R::FsmError,
+        t => panic!("verif: bad reason {}", t),
+    }
+}
+
+fn comm_attrs(no_llgr: bool, llgr_comm: bool) -> Arc<Vec<packet::Attribute>> {
+    let mut bin: Vec<u8> = Vec::new();
+    if no_llgr {
+        bin.extend_from_slice(&0xffff_0007u32.to_be_bytes());
+    }
+    if llgr_comm {
+        bin.extend_from_slice(&0xffff_0006u32.to_be_bytes());
+    }
+    if bin.is_empty() {
+        Arc::new(Vec::new())
+    } else {
+        Arc::new(vec![packet::Attribute::new_with_bin(packet::Attribute::COMMUNITY, bin).unwrap()])
+    }
+}
+
+fn has_comm(attrs: &[packet::Attribute], c: u32) -> bool {
+    attrs
+        .iter()
+        .find(|a| a.code() == packet::Attribute::COMMUNITY)
+        .and_then(|a| a.binary())
+        .is_some_and(|bin| bin.chunks(4).any(|x| x.try_into().ok().map(u32::from_be_bytes) == Some(c)))
+}
+
+async fn settle() {
+    for _ in 0..50 {
+        tokio::task::yield_now().await;
+    }
+}
+
+async fn run_helper_case(l: &[Val]) -> Val {
+    let global = mk_global();
+    let tables: TableHandle = Arc::new(TableManager::new(1));
+    let context = mk_context();
+    let addr = peer_addr(1);
+    let mut session: Option<PeerSession> = None;
+    let mut sources: Vec<(Arc<table::Source>, i128)> = Vec::new();
+    let mut generation: i128 = 0;
+    let mut admin_down = false;
+    let mut obs = Vec::new();
+    for ev in l[1].list() {
+        let e = ev.list();
+        match e[0].int() {
+            0 => {
+                if session.is_none() {
+                    generation += 1;
+                    let mut s = PeerSession::new_for_test(addr, context.clone(), tables.clone());
+                    // on_established: one Source per negotiated family
+                    for f in e[1].list().iter().map(fam_of) {
+                        let src = mk_source(addr, 1);
+                        sources.push((src.clone(), generation));
+                        s.source.insert(f, src);
+                    }
+                    // apply_outputs(SessionEstablished): negotiate_gr / negotiate_llgr results
+                    s.negotiated_gr = e[2].list().first().map(|g| NegotiatedGr {
+                        families: g.at(0).list().iter().map(fam_of).collect(),
+                        restart_time: Duration::from_secs(g.at(1).u64()),
+                        notification_enabled: g.at(2).bool(),
+                    });
+                    s.negotiated_llgr = e[3].list().first().map(|lp| NegotiatedLlgr {
+                        families: lp
+                            .list()
+                            .iter()
+                            .map(|p| (fam_of(p.at(0)), Duration::from_secs(p.at(1).u64())))
+                            .collect(),
+                    });
+                    let negotiated_gr = s.negotiated_gr.clone();
+                    s.process_effects(vec![GlobalEffect::GrSessionEstablished { negotiated_gr }], &global)
+                        .await;
+                    session = Some(s);
+                }
+            }
+            1 => {
+                if let Some(s) = session.as_ref() {
+                    let f = fam_of(&e[1]);
+                    if let Some(src) = s.source.get(&f) {
+                        tables.insert_route(
+                            src.clone(),
+                            f,
+                            packet::PathNlri { path_id: 0, nlri: net_of(e[2].u32()) },
+                            None,
+                            comm_attrs(e[3].bool(), e[4].bool()),
+                            None,
+                            0,
+                        );
+                    }
+                }
+            }
+            2 => {
+                // rx path: GrEorReceived is raised only when GR was negotiated on this session
+                if let Some(s) = session.as_mut() {
+                    if s.negotiated_gr.is_some() {
+                        s.process_effects(
+                            vec![GlobalEffect::GrEorReceived { family: fam_of(&e[1]) }],
+                            &global,
+                        )
+                        .await;
+                    }
+                }
+            }
+            3 => {
+                if let Some(mut s) = session.take() {
+                    // the disconnect block of session_loop()
+                    let shutdown_reason = Some(reason_of(e[1].int()));
+                    let mut disconnect = DisconnectInfo {
+                        role: s.role,
+                        remote_addr: s.remote_addr,
+                        export_map: ExportMap::default(),
+                        negotiated_gr: None,
+                        negotiated_llgr: None,
+                    };
+                    if !s.source.is_empty() {
+                        let drop_families = families_to_drop_on_disconnect(
+                            s.source.keys(),
+                            s.negotiated_gr.as_ref(),
+                            s.negotiated_llgr.as_ref(),
+                        );
+                        let stale_families: Vec<Family> = s
+                            .negotiated_gr
+                            .as_ref()
+                            .map(|g| g.families.clone())
+                            .unwrap_or_default();
+                        s.tables.unregister_peer(s.remote_addr, &drop_families, &stale_families);
+                    }
+                    disconnect.negotiated_gr = s
+                        .negotiated_gr
+                        .take()
+                        .and_then(|gr| gr_on_disconnect(&shutdown_reason, gr));
+                    if disconnect.negotiated_gr.is_some()
+                        || matches!(
+                            shutdown_reason,
+                            None | Some(crate::fsm::SessionDownReason::IoError)
+                        )
+                    {
+                        disconnect.negotiated_llgr = s.negotiated_llgr.take();
+                    }
+                    // run(): admin-down override
+                    if admin_down {
+                        disconnect.negotiated_gr = None;
+                        disconnect.negotiated_llgr = None;
+                    }
+                    apply_disconnect(&context, addr, &tables, disconnect).await;
+                }
+            }
+            4 => {
+                // a connection that never reaches Established: session_loop returns the
+                // initial DisconnectInfo, run() hands it to apply_disconnect
+                let s = PeerSession::new_for_test(addr, context.clone(), tables.clone());
+                let disconnect = DisconnectInfo {
+                    role: s.role,
+                    remote_addr: s.remote_addr,
+                    export_map: ExportMap::default(),
+                    negotiated_gr: None,
+                    negotiated_llgr: None,
+                };
+                apply_disconnect(&context, addr, &tables, disconnect).await;
+            }
+            5 => {
+                let tx = {
+                    let mut ctx = context.lock().unwrap();
+                    if ctx.gr_restart_timer.as_ref().is_some_and(|t| !t.is_closed()) {
+                        ctx.gr_restart_timer.take()
+                    } else {
+                        None
+                    }
+                };
+                if let Some(tx) = tx {
+                    let _ = tx.send(());
+                }
+            }
+            6 => {
+                let f = fam_of(&e[1]);
+                let tx = {
+                    let mut ctx = context.lock().unwrap();
+                    if ctx.llgr_family_timers.get(&f).is_some_and(|t| !t.is_closed()) {
+                        ctx.llgr_family_timers.remove(&f)
+                    } else {
+                        None
+                    }
+                };
+                if let Some(tx) = tx {
+                    let _ = tx.send(());
+                }
+            }
+            7 => {
+                context.lock().unwrap().force_down(CloseReason::Silent, false);
+            }
+            8 => {
+                admin_down = e[1].bool();
+            }
+            t => panic!("verif: bad helper event {}", t),
+        }
+        settle().await;
+        let (restarting, rt, mut lts) = {
+            let ctx = context.lock().unwrap();
+            (
+                ctx.gr_state.is_peer_restarting(),
+                ctx.gr_restart_timer.as_ref().is_some_and(|t| !t.is_closed()),
+                ctx.llgr_family_timers
+                    .iter()
+                    .filter(|(_, t)| !t.is_closed())
+                    .map(|(f, _)| fam_code(f))
+                    .collect::<Vec<_>>(),
+            )
+        };
+        lts.sort();
+        let mut routes: Vec<Vec<i128>> = Vec::new();
+        for f in PROBE_FAMS {
+            for d in tables.collect_paths(table::TableQuery::AdjIn(addr), f, vec![], true) {
+                for p in d.paths {
+                    let g = sources
+                        .iter()
+                        .find(|(s, _)| Arc::ptr_eq(s, &p.source))
+                        .map(|(_, g)| *g)
+                        .unwrap_or(-1);
+                    routes.push(vec![
+                        fam_code(&f),
+                        net_code(&d.net),
+                        g,
+                        p.source.is_stale() as i128,
+                        p.source.is_llgr_stale() as i128,
+                        has_comm(&p.attr, 0xffff_0007) as i128,
+                        has_comm(&p.attr, 0xffff_0006) as i128,
+                    ]);
+                }
+            }
+        }
+        routes.sort();
+        obs.push(Val::L(vec![
+            Val::b(restarting),
+            Val::b(rt),
+            Val::L(lts.into_iter().map(Val::I).collect()),
+            Val::L(routes
+                .into_iter()
+                .map(|r| Val::L(r.into_iter().map(Val::I).collect()))
+                .collect()),
+        ]));
+    }
+    Val::L(obs)
+}
+
 fn run_case(case: &Val) -> Val {
     let l = case.list();
     let rt = tokio::runtime::Builder::new_current_thread().enable_all().build().unwrap();
     match l[0].int() {
         0 => rt.block_on(run_rs_case(l)),
+        1 => rt.block_on(run_helper_case(l)),
         t => panic!("verif: bad glue case kind {}", t),
     }
 }
